@@ -1,4 +1,4 @@
-import Proofs.AggregateTop
+import Proofs.AggregateCheck
 
 /-!
 # C19 — Ensemble aggregators implement weighted mixtures consistently
@@ -137,6 +137,41 @@ theorem C19_total_variance (ws : List Rat) {locs scales : List Cell}
     ∃ m v a e, mixedNormal ws locs scales = ⟨some m, some v, some a, some e⟩ ∧ v = a + e :=
   mixedNormal_total_variance ws h hW
 
+/-- **verified checkers** (run by the driver on the real aggregators' floating-point outputs, `tol`
+absorbing the rounding): each decides exactly its clause of the property … -/
+theorem C19_checker (tol : Rat) (c : Nat) (loc : List Rat) (ws : List Rat) (ys : List Cell) (m hi u a e v : Rat) :
+    (checkSimplex tol c loc = true ↔ SimplexSpec tol c loc) ∧
+    (checkBetween tol ws ys m = true ↔ BetweenSpec tol ws ys m) ∧
+    (checkUncertainty tol hi u a e = true ↔ UncertaintySpec tol hi u a e) ∧
+    (checkRange tol hi u = true ↔ (-tol ≤ u ∧ u ≤ hi + tol)) ∧
+    (checkTotalVariance tol v a e = true ↔ (v - (a + e) ≤ tol ∧ (a + e) - v ≤ tol)) :=
+  ⟨checkSimplex_iff tol c loc, checkBetween_iff tol ws ys m, checkUncertainty_iff tol hi u a e,
+    checkRange_iff tol hi u, checkTotalVariance_iff tol v a e⟩
+
+/-- … and the model's outputs pass them for every `tol ≥ 0` (so a checker failure on the
+implementation's output is a disagreement with the proved clauses, not an artefact of the checker) -/
+theorem C19_checker_model_passes {tol : Rat} (ht : 0 ≤ tol) {c : Nat} (hc : 0 < c) {ws : List Rat}
+    (hw : ∀ w ∈ ws, 0 ≤ w) :
+    (∀ ys a, average ws ys = some a → checkBetween tol ws ys a = true) ∧
+    (∀ rows, RowsSimplex c rows → rsum ws rows ≠ 0 → ∃ loc u a e,
+      mixedCategoricalConf c ws rows = ⟨some loc, some u, some a, some e⟩ ∧
+      checkSimplex tol c loc = true ∧ checkUncertainty tol (1 - 1 / (c : Rat)) u a e = true) ∧
+    (∀ rows, RowsLen c rows → rsum ws rows ≠ 0 → ∃ counts k u,
+      modeAgg c ws rows = ⟨some counts, some k, some u⟩ ∧ checkSimplex tol c counts = true ∧
+      checkRange tol 1 u = true) ∧
+    (∀ locs scales, SamePresence locs scales → wsum ws locs ≠ 0 → ∃ m v a e,
+      mixedNormal ws locs scales = ⟨some m, some v, some a, some e⟩ ∧ checkTotalVariance tol v a e = true) := by
+  refine ⟨fun ys a h => ?_, fun rows hr hW => ?_, fun rows hr hW => ?_, fun locs scales h hW => ?_⟩
+  · exact (checkBetween_iff _ _ _ _).2 (BetweenSpec_of_exact ht (C19_between hw h))
+  · obtain ⟨loc, u, a, e, h1, h2, h3, h4, h5, _, h7, h8⟩ := C19_conf_range hc hw hr hW
+    exact ⟨loc, u, a, e, h1, (checkSimplex_iff _ _ _).2 (SimplexSpec_of_exact ht h2),
+      (checkUncertainty_iff _ _ _ _ _).2 (UncertaintySpec_of_exact ht ⟨h3, h4, h5, h7, h8⟩)⟩
+  · obtain ⟨counts, k, u, h1, h2, _, h4, _, h6⟩ := C19_mode_range hc hw hr hW
+    exact ⟨counts, k, u, h1, (checkSimplex_iff _ _ _).2 (SimplexSpec_of_exact ht h2),
+      (checkRange_iff _ _ _).2 ⟨by linarith, by linarith⟩⟩
+  · obtain ⟨m, v, a, e, h1, h2⟩ := C19_total_variance ws h hW
+    exact ⟨m, v, a, e, h1, (checkTotalVariance_iff _ _ _ _).2 ⟨by rw [h2]; linarith, by rw [h2]; linarith⟩⟩
+
 /-! ### non-vacuity and regression witnesses -/
 
 -- weights .7/.2/.1 (as 7/2/1: only ratios matter), member 1 masked
@@ -174,5 +209,14 @@ example : modeAgg 2 [1, 1, 1] [some [1 / 10, 9 / 10], some [4 / 5, 1 / 5], none]
 example : conf (modeCountsUnnormalised 2 [1, 1, 1] [some [0, 1], some [0, 1], some [0, 1]]) = some (-2) := by
   decide +kernel
 example : (modeAgg 2 [1, 1, 1] [some [0, 1], some [0, 1], some [0, 1]]).unc = some 0 := by decide +kernel
+
+example : checkSimplex 0 2 [7 / 16, 9 / 16] = true := by decide +kernel
+example : checkSimplex (1 / 1000) 2 [1 / 2, 2 / 3] = false := by decide +kernel
+example : checkBetween 0 [7, 2, 1] [some 1, none, some 4] (11 / 8) = true := by decide +kernel
+example : checkBetween 0 [7, 2, 1] [some 1, none, some 4] 5 = false := by decide +kernel
+example : checkUncertainty 0 (1 / 2) (1 / 2) 0 (1 / 2) = true := by decide +kernel
+example : checkRange 0 1 (-2) = false := by decide +kernel
+example : checkTotalVariance 0 (11 / 10) (1 / 4) (17 / 20) = true ∧ checkTotalVariance 0 (11 / 10) (1 / 4) (14 / 9) = false := by
+  decide +kernel
 
 end DH.Aggregate
